@@ -832,6 +832,15 @@ def compare_all(ctx, exe, cases, impl, model):
         if knife_edge(ctx, exe, c, b):
             ctx.count("knife-edge-accepted")
             continue
+        if a["status"] == "ok" and b["status"] == "ok" and nan_signature(c, a) is not None:
+            # the implementation is at one of the known NaN-at-kinematic-limit points (sqrt argument within a few ulp
+            # of 0; reported by the oracle under its signature): whether the model's own rounding lands on the NaN
+            # side too is a coin flip; energies, action, draws must still agree
+            fa = dict(a, dir=[0.0] * 3, secs=[(s_[0], s_[1], [0.0] * 3) for s_ in a["secs"]])
+            fb = dict(b, dir=[0.0] * 3, secs=[(s_[0], s_[1], [0.0] * 3) for s_ in b["secs"]])
+            if agree(c, fa, fb):
+                ctx.count("knife-edge-nan-accepted")
+                continue
         ndis += 1
         if ndis <= 4:
             ctx.violation("correspondence", "model and implementation differ for %s" % c.model,
